@@ -117,3 +117,55 @@ Lemma keygen_stdout_spec d k :
 Proof.
   unfold keygen_stdout. split; [intros H; split; [apply fits_accepted; exact H|exact H]|intros [_ H]; exact H].
 Qed.
+
+(** * LazyScryptIdentity *)
+From Age Require Import Format Prims Recipients AgeLogic.
+
+Lemma lazy_prompt_iff P ss typed r prompted w :
+  lazy_scrypt_unwrap P ss typed = (r, prompted, w) ->
+  (prompted = true <-> exists s, ss = [s] /\ st_type s = ty_scrypt).
+Proof.
+  unfold lazy_scrypt_unwrap.
+  destruct (existsb (fun s => bytes_eqb (st_type s) ty_scrypt) ss && negb (Nat.eqb (length ss) 1)) eqn:E.
+  - intros H; inversion H; subst. split; [discriminate|].
+    intros [s [Hs Ht]]. subst ss. cbn in E. rewrite andb_false_r in E. discriminate.
+  - destruct ss as [|s [|s' ss']].
+    + intros H; inversion H; subst. split; [discriminate|intros [s [Hs _]]; discriminate].
+    + destruct (bytes_eqb (st_type s) ty_scrypt) eqn:Et; cbn [negb].
+      * assert (Hty : st_type s = ty_scrypt) by (apply Base64Facts.bytes_eqb_eq; exact Et).
+        destruct typed as [[|c pw]|].
+        -- intros H; inversion H; subst. split; [intros _; exists s; auto|reflexivity].
+        -- destruct (unwrap P (IScrypt (c :: pw) cli_max_work_factor) [s]) as [r0 w0].
+           intros H; inversion H; subst. split; [intros _; exists s; auto|reflexivity].
+        -- intros H; inversion H; subst. split; [intros _; exists s; auto|reflexivity].
+      * intros H; inversion H; subst. split; [discriminate|].
+        intros [s0 [Hs Ht]]. inversion Hs; subst s0.
+        apply Base64Facts.bytes_eqb_eq in Ht. congruence.
+    + intros H; inversion H; subst. split; [discriminate|intros [s0 [Hs _]]; discriminate].
+Qed.
+
+Lemma lazy_work_bound P ss typed r prompted w :
+  lazy_scrypt_unwrap P ss typed = (r, prompted, w) ->
+  (length w <= 1)%nat /\ forall n, In n w -> (1 <= n <= cli_max_work_factor)%N.
+Proof.
+  unfold lazy_scrypt_unwrap.
+  destruct (existsb (fun s => bytes_eqb (st_type s) ty_scrypt) ss && negb (Nat.eqb (length ss) 1)).
+  - intros H; inversion H; subst. split; [cbn; lia|intros n []].
+  - destruct ss as [|s [|s' ss']]; try (intros H; inversion H; subst; split; [cbn; lia|intros n []]).
+    destruct (negb (bytes_eqb (st_type s) ty_scrypt)); [intros H; inversion H; subst; split; [cbn; lia|intros n []]|].
+    destruct typed as [[|c pw]|]; try (intros H; inversion H; subst; split; [cbn; lia|intros n []]).
+    destruct (unwrap P (IScrypt (c :: pw) cli_max_work_factor) [s]) as [r0 w0] eqn:Eu.
+    intros H; inversion H; subst.
+    destruct (scrypt_work_bound P _ _ _ _ _ Eu) as [Hl Hn].
+    split; [exact Hl|]. intros n Hin. destruct (Hn n Hin) as [Hr _]. exact Hr.
+Qed.
+
+Lemma lazy_not_alone_fatal P ss typed :
+  (exists s, In s ss /\ st_type s = ty_scrypt) -> length ss <> 1%nat ->
+  lazy_scrypt_unwrap P ss typed = (Err EFatal, false, []).
+Proof.
+  intros [s [Hin Ht]] Hl. unfold lazy_scrypt_unwrap.
+  assert (E : existsb (fun s => bytes_eqb (st_type s) ty_scrypt) ss = true).
+  { apply existsb_exists. exists s. split; [exact Hin|]. apply Base64Facts.bytes_eqb_eq. exact Ht. }
+  rewrite E. apply Nat.eqb_neq in Hl. rewrite Hl. reflexivity.
+Qed.
